@@ -17,6 +17,7 @@ pub struct State {
     pub timeouts: usize,
     pub jitter: Option<u64>,     // seeded random delays at every command begin (no gating)
     pub jitter_count: u64,
+    pub vote_delay_us: u64,      // every voting job of the batch trackers is delayed by this much (pipelined batches overlap)
     pub interleaved: u64,        // how many times a command began on another shard than the previous one
     pub last_shard: Option<u64>,
 }
@@ -49,7 +50,14 @@ pub fn install() {
         match site {
             "batch.begin" => return log_event('B', arg),
             "batch.dispatched" => return log_event('D', arg),
-            "vote.job.begin" => return log_event('T', arg),
+            "vote.job.begin" => {
+                log_event('T', arg);
+                let d = SCHED.0.lock().unwrap().vote_delay_us;
+                if d > 0 {
+                    std::thread::sleep(Duration::from_micros(d));
+                }
+                return;
+            }
             "vote.after_send" => return log_event('S', arg),
             "vote.monitor.dec" => return log_event('M', arg),
             _ => {}
